@@ -23,7 +23,7 @@ func init() {
 		Assumptions: []string{"Getw/Join widths restricted to {1,2,4,8,16,32,64} and Slice to 0<=from<=to<=64*len (the stated domain)",
 			"nothing asserted about capacity of returned slices"},
 		Flavours: releaseAnd386,
-		Required: []string{"arguments-in-read-only-memory", "join/w=1", "join/w=2", "join/w=4", "join/w=8", "join/w=16", "join/w=32", "join/w=64", "join/empty", "join/long-list",
+		Required: []string{"long-run/calls>=100000-per-function", "arguments-in-read-only-memory", "join/w=1", "join/w=2", "join/w=4", "join/w=8", "join/w=16", "join/w=32", "join/w=64", "join/empty", "join/long-list",
 			"slice/empty", "slice/aligned", "slice/unaligned", "slice/multiword", "slice/to-end", "slice/sub-word", "slice/bitmap>=2^31-bits"},
 		Families: func(c *mon.Config) []mon.Family {
 			reps := c.Pick(6, 1000)
@@ -39,6 +39,7 @@ func init() {
 				{Name: "slice-zoo", Env: 6, N: c.Pick(4000, 1000000), Run: c14SliceZoo},
 				{Name: "slice-huge-bitmap", N: 1, Run: c14SliceHuge},
 				{Name: "join-long", Env: 3, N: 7 * c.Pick(2, 100), Run: c14JoinLong},
+				lrFamily(c14LongRun),
 			}
 		},
 	})
